@@ -48,6 +48,9 @@ pub struct Profile {
     /// the content of an inline element may begin / end with collapsible white space
     /// (<a href=x> the docs </a>)
     pub edge_space: bool,
+    /// a <pre> block may contain another <pre> (directly or inside an inline element)
+    /// followed by more text of the outer block
+    pub nested_pre: bool,
     /// some links have their own text as target (<a href="Aaaa">Aaaa</a>), an empty
     /// target (href="") or a blank one (href=" ")
     pub odd_hrefs: bool,
@@ -95,6 +98,7 @@ impl Profile {
             stray_in_table: false,
             odd_hrefs: false,
             uni_space_permille: 0,
+            nested_pre: false,
         }
     }
     pub fn no_tables(mut self) -> Profile {
@@ -595,6 +599,15 @@ impl<'a> DocGen<'a> {
         }
         if !s.is_empty() {
             nodes.push(Node::Raw(s));
+        }
+        if self.p.nested_pre && self.rng.chance(1, 5) {
+            let w1 = self.tok.unique(self.rng, &self.p.clone());
+            let w2 = self.tok.unique(self.rng, &self.p.clone());
+            let inner = El::with("pre", vec![Node::Raw(w1)]).node();
+            let inner = if self.rng.chance(1, 3) { El::with("em", vec![inner]).node() } else { inner };
+            let at = self.rng.below(nodes.len() + 1);
+            nodes.insert(at, inner);
+            nodes.insert(at + 1, Node::Raw(w2));
         }
         if nodes.is_empty() {
             nodes.push(Node::Raw("x".into()));
